@@ -23,6 +23,7 @@
 -/
 import MdProofs.C05
 import MdProofs.Lemmas.Process
+import MdProofs.Lemmas.OpAnalysis
 namespace MdModel.Process
 open MdModel MdModel.Walk
 
@@ -251,6 +252,210 @@ theorem arg_read_head_no_panic (start limit : Nat) :
     · exact ⟨h, rfl, by omega⟩
 
 example : argReadHead 4294967292 4294967295 3 = .ok 4294967296 := by rfl
+
+/-! ## (2b) "without panicking": the crashing-instruction analysis (op_analysis.rs, amd64)
+
+`MdModel.OpAnalysis` is the whole decision logic of `amd64::analyze_instruction` over an abstract
+decoded instruction (opcode name, `mem_size`, the `Operand` variants of yaxpeax-x86), with the
+nine `panic!("… unexpected memory operand")` arms, `assert_eq!(operand_count(), 1)` and yaxpeax's
+`assert!(i < 4)` as panic outcomes. -/
+
+section OpAnalysisTheorems
+open MdModel.OpAnalysis
+
+/-- **no panic arm is reachable from an instruction of the decoder's shape**, whatever the register
+    file, the memory list and the stack memory are: at most four operands, exactly one for
+    CALL/CALLF/JMP/JMPF/JMPE, and memory operands of an access-derivable opcode only where the
+    `match idx` arms expect them (`Shape`). -/
+theorem op_analysis_no_panic (i : Instr) (env : OpAnalysis.Env) (h : Shape i = true) : NoPanic (analyze i env) := by
+  rcases isPanic_or_noPanic (analyze i env) with hp | hn
+  · exfalso
+    rcases (analyze_isPanic_iff i env).mp hp with h1 | h2 | h3
+    · exact not_isPanic_of_noPanic (memAccesses_ok i env.rf h) h1
+    · exact not_isPanic_of_noPanic (ipUpdate_ok i env h) h2
+    · exact not_isPanic_of_noPanic (getRegisters_ok i.operands 0 [] (by have := (shape_unpack i h).1; omega)) h3
+  · exact hn
+
+/-- **`Shape` is exact**: with every register valid, an abstract instruction reaches a `panic!` /
+    `assert_eq!` / `assert!` if and only if it is outside `Shape`. So the abstract instructions that
+    panic are precisely: more than four operands; a CALL/CALLF/JMP/JMPF/JMPE without exactly one
+    operand; a memory-accessing ADD/SUB/CMP/UCOMISS/MOV/MOVAPS/MOVUPS/LEA with a memory operand at
+    position ≥ 2, CALL/JMP/JMPF/PUSH/DEC/INC/POP with one at position ≥ 1, RETURN/RETF/Jcc with
+    any memory operand. (No byte sequence yaxpeax-x86 2.0 decodes was found to produce one — sampled.) -/
+theorem op_analysis_panic_iff (i : Instr) (readMem : Nat → Option Nat) (readStack : Option (Nat → Option Nat)) :
+    IsPanic (analyze i ⟨allValid, readMem, readStack⟩) ↔ Shape i = false := by
+  constructor
+  · intro hp
+    cases hs : Shape i with
+    | false => rfl
+    | true => exact absurd hp (not_isPanic_of_noPanic (op_analysis_no_panic i _ hs))
+  · intro hs
+    rw [analyze_isPanic_iff]
+    by_cases h1 : i.operands.length ≤ 4
+    · by_cases h2 : ipClass i.opc = .callLike ∧ i.operands.length ≠ 1
+      · exact Or.inr (Or.inl (ipUpdate_panic i _ h2.1 h2.2))
+      · left
+        simp only [Shape, h1, decide_true, Bool.true_and] at hs
+        have h2' : (ipClass i.opc != .callLike || decide (i.operands.length = 1)) = true := by
+          by_cases hc : ipClass i.opc = .callLike
+          · have : i.operands.length = 1 := by
+              by_cases hl : i.operands.length = 1
+              · exact hl
+              · exact absurd ⟨hc, hl⟩ h2
+            simp [this]
+          · simp [hc]
+        rw [h2', Bool.true_and] at hs
+        cases hms : i.memSize with
+        | none => rw [hms] at hs; simp at hs
+        | some ms =>
+          cases had : derivable i.opc with
+          | none => rw [hms, had] at hs; simp at hs
+          | some ad =>
+            rw [hms, had] at hs
+            exact memAccesses_panic i ms ad hms had hs
+    · exact Or.inr (Or.inr (getRegisters_panic i.operands 0 [] (by omega) (by omega)))
+
+/-- opcodes that are neither access-derivable nor CALL/JMP-like never reach a panic arm (≤ 4 operands) -/
+theorem op_analysis_other_opcodes (i : Instr) (env : OpAnalysis.Env) (h4 : i.operands.length ≤ 4)
+    (hd : derivable i.opc = none) (hc : ipClass i.opc ≠ .callLike) : NoPanic (analyze i env) := by
+  apply op_analysis_no_panic
+  simp only [Shape, h4, decide_true, Bool.true_and, hd, Bool.and_eq_true, Bool.or_eq_true, bne_iff_ne, ne_eq]
+  refine ⟨Or.inl hc, ?_⟩
+  cases i.memSize <;> rfl
+
+/-- **"every reported memory access address is the documented function of the operands".**
+    Every access `memory_access_list` reports is
+    * an explicit one: it belongs to a memory operand `operands[k]` whose `MemoryOperandInfo` is
+      `(base, index, scale, disp)`, its address is
+      `(B + I * scale + disp) mod 2^64` — `B`, `I` the values of the base / index registers (0 when
+      absent), `scale` defaulting to 1, `disp` the sign-extended displacement (`i32`, or the
+      `u32`/`u64` absolute address reinterpreted as `i32`/`i64`) —, flagged as a null-pointer
+      dereference exactly when there is a base register holding 0, with the instruction's `mem_size`; or
+    * the implicit stack slot of an access-derivable CALL/PUSH/POP/RETF/RETURN. -/
+theorem op_access_documented (i : Instr) (rf : Reg → Option Nat) (l : List MemAccess)
+    (h : memAccesses i rf = .ok (.ok l)) :
+    ∀ m ∈ l,
+      (∃ (k : Nat) (op : Operand) (inf : OpInfo) (B I : Nat), i.operands[k]? = some op ∧ op.isMemory = true ∧ opInfo op = some inf ∧
+          regVal rf inf.base = some B ∧ regVal rf inf.index = some I ∧
+          (m.info.address : Int) =
+            ((B : Int) + (I : Int) * ((inf.scale.getD 1 : Nat) : Int) + inf.disp.getD 0) % 18446744073709551616 ∧
+          m.info.null = (inf.base.isSome && B == 0) ∧ i.memSize = some m.size) ∨
+      (∃ ad ms, derivable i.opc = some ad ∧ i.memSize = some ms ∧ m ∈ implicitAccesses ad rf ms) := by
+  intro m hm
+  unfold memAccesses at h
+  cases hms : i.memSize with
+  | none =>
+    rw [hms] at h
+    simp only [Outcome.ok.injEq, Res.ok.injEq] at h
+    subst h
+    cases hm
+  | some ms =>
+    rw [hms] at h
+    simp only at h
+    cases had : derivable i.opc with
+    | none =>
+      rw [had] at h
+      simp only at h
+      obtain ⟨k, op, l', hk, hf, hml⟩ := operandLoop_mem _ i.operands 0 l h m hm
+      obtain ⟨hmem, _, hsz, inf, hinf, haddr⟩ := explicitUnderivable_mem rf ms op l' hf m hml
+      obtain ⟨B, I, hB, hI, hform, hnull⟩ := addrOfInfo_spec rf inf m.info haddr
+      exact Or.inl ⟨k, op, inf, B, I, hk, hmem, hinf, hB, hI, hform, hnull, by rw [hsz]⟩
+    | some ad =>
+      rw [had] at h
+      simp only at h
+      cases hl : operandLoop (explicitDerivable ad rf ms) 0 i.operands with
+      | panic s => rw [hl] at h; cases h
+      | ok r =>
+        rw [hl] at h
+        cases r with
+        | regInvalid => cases h
+        | ok l1 =>
+          simp only [Outcome.ok.injEq, Res.ok.injEq] at h
+          subst h
+          rcases List.mem_append.mp hm with h1 | h2
+          · obtain ⟨k, op, l', hk, hf, hml⟩ := operandLoop_mem _ i.operands 0 l1 hl m h1
+            obtain ⟨hmem, _, hsz, inf, hinf, haddr⟩ := explicitDerivable_mem ad rf ms (0 + k) op l' hf m hml
+            obtain ⟨B, I, hB, hI, hform, hnull⟩ := addrOfInfo_spec rf inf m.info haddr
+            exact Or.inl ⟨k, op, inf, B, I, hk, hmem, hinf, hB, hI, hform, hnull, by rw [hsz]⟩
+          · exact Or.inr ⟨ad, ms, rfl, rfl, h2⟩
+
+/-- the implicit stack slot: CALL/PUSH write `rsp.wrapping_sub(8)` (the kernel `implicitAccess` of
+    `implicit_access_total`), POP/RETF/RETURN read `rsp`; nothing when `rsp` is invalid or for
+    another opcode -/
+theorem op_implicit_access (ad : AD) (rf : Reg → Option Nat) (ms : Option Nat) :
+    implicitAccesses ad rf ms =
+      match rf "rsp" with
+      | none => []
+      | some rsp =>
+        if ad = .CALL ∨ ad = .PUSH then
+          [{ info := { address := implicitAccess .push rsp, null := implicitAccess .push rsp == 0 }, size := ms, ty := .write }]
+        else if ad = .POP ∨ ad = .RETF ∨ ad = .RETURN then
+          [{ info := { address := implicitAccess .pop rsp, null := rsp == 0 }, size := ms, ty := .read }]
+        else [] := by
+  cases ad <;> cases h : rf "rsp" <;> simp [implicitAccesses, implicitAccess, h]
+
+/-- **an explicit access fails (the whole list is `None`) exactly on an invalid base or index
+    register** — there is no other error path in the address derivation -/
+theorem op_address_total (rf : Reg → Option Nat) (inf : OpInfo) :
+    (∃ a, addrOfInfo rf inf = .ok a) ∨ (regVal rf inf.base = none ∨ regVal rf inf.index = none) := by
+  cases h : addrOfInfo rf inf with
+  | ok a => exact Or.inl ⟨a, rfl⟩
+  | regInvalid => exact Or.inr ((addrOfInfo_invalid rf inf).mp h)
+
+/-- **the register set** (`get_registers`): exactly the base and index registers of the operands
+    that have a `MemoryOperandInfo` (the masked AVX-512 memory operands have none) -/
+theorem op_registers_spec (i : Instr) (env : OpAnalysis.Env) (a : Analysis) (h : analyze i env = .ok a) :
+    ∀ r, r ∈ a.registers ↔ ∃ op ∈ i.operands, ∃ inf, opInfo op = some inf ∧ (inf.base = some r ∨ inf.index = some r) := by
+  intro r
+  unfold analyze at h
+  cases h1 : memAccesses i env.rf with
+  | panic s => rw [h1] at h; cases h
+  | ok acc =>
+    rw [h1] at h
+    simp only at h
+    cases h2 : ipUpdate i env with
+    | panic s => rw [h2] at h; cases h
+    | ok ip =>
+      rw [h2] at h
+      simp only at h
+      cases h3 : getRegisters 0 i.operands [] with
+      | panic s => rw [h3] at h; cases h
+      | ok regs =>
+        rw [h3] at h
+        simp only [Outcome.ok.injEq] at h
+        subst h
+        simp only
+        rw [mem_getRegisters i.operands 0 [] regs h3 r]
+        simp
+
+/-- `mov rax, [rbx + rcx*8 + 16]`: one read of 8 bytes at `rbx + 8*rcx + 16`, registers `{rbx, rcx}` -/
+example : analyze ⟨.MOV, some (some 8), [.reg "rax", .baseIndexScaleDisp "rbx" "rcx" 8 16]⟩
+    ⟨fun r => if r = "rbx" then some 4096 else if r = "rcx" then some 2 else none, fun _ => none, none⟩ =
+    .ok { props := ⟨true, false, true, true⟩,
+          accesses := some [⟨⟨4128, false⟩, some 8, .read⟩], ipUpdate := some .noUpdate, registers := ["rbx", "rcx"] } := by
+  decide
+/-- the arithmetic wraps: `[rbx + rcx*8 - 16]` with `rbx = 8`, `rcx = 2^61` -/
+example : addrOfInfo (fun r => if r = "rbx" then some 8 else some (2 ^ 61)) ⟨some "rbx", some "rcx", some 8, some (-16)⟩ =
+    .ok ⟨2 ^ 64 - 8, false⟩ := by decide
+/-- `AbsoluteU32 { addr: 0xfffffff0 }` is sign-extended (`addr as i32 as i64`) -/
+example : addrOf (fun _ => none) (.absU32 0xfffffff0) = .ok (some ⟨2 ^ 64 - 16, false⟩) := by decide
+/-- a 32-bit base register (address-size override) names no amd64 context register: no access list -/
+example : memAccesses ⟨.MOV, some (some 4), [.reg "eax", .deref "ebx"]⟩ (fun r => if r = "rbx" then some 1 else none) =
+    .ok .regInvalid := by decide
+/-- abstract instructions outside `Shape` reach the panic arms: a `ret` with a memory operand, a
+    `call` with two operands, an `add` with a memory operand in third place, five operands -/
+example : analyze ⟨.RETURN, some (some 8), [.deref "rax"]⟩ ⟨allValid, fun _ => none, none⟩ =
+    .panic "ret/iret instruction had unexpected memory operand" := by decide
+example : analyze ⟨.CALL, none, [.reg "rax", .imm]⟩ ⟨allValid, fun _ => none, none⟩ =
+    .panic "call/jmp instruction had incorrect operand count" := by decide
+example : Shape ⟨.ADD, some (some 4), [.reg "eax", .imm, .deref "rax"]⟩ = false ∧
+    Shape ⟨.other, none, [.imm, .imm, .imm, .imm, .imm]⟩ = false ∧
+    Shape ⟨.ADD, some (some 4), [.deref "rax", .imm]⟩ = true ∧ Shape ⟨.JMPF, some (some 10), [.deref "rax"]⟩ = true := by decide
+/-- an invalid register at position 0 ends the loop before a later panic arm (the order of evaluation is modelled) -/
+example : memAccesses ⟨.ADD, some (some 4), [.deref "eax", .imm, .deref "rax"]⟩ (fun r => if r = "rax" then some 1 else none) =
+    .ok .regInvalid := by decide
+
+end OpAnalysisTheorems
 
 /-! ## (3) "the resulting state can always be written as full text, brief text and JSON" -/
 
